@@ -1040,6 +1040,11 @@ def arg_variants(fname: str, I: Info, tmp) -> list:
     v = G.get(fname)
     if v is None:
         return [{}]
+    if fname == "add_covariate_effect" and "NCOMED" in I.cols:
+        # degenerate covariates (median = minimum, median = maximum, all equal, binary) x every documented effect
+        v = [{"parameter": ip, "covariate": c, "effect": e} for c in ("NCOMED", "FREE", "CONST", "BIN")
+             for e in ("exp", "lin", "pow", "piece_lin", "cat", "cat2")]
+        v += [{"parameter": I.ip(1), "covariate": "NCOMED", "effect": "exp", "operation": "+"}]
     return v
 
 
